@@ -32,6 +32,58 @@ def _frame_columns(ctx) -> Tuple[List[str], ast.AST]:
     raise AnalysisError("Pattern.__init__: frame construction not found")
 
 
+def _u(e):
+    return ast.unparse(e) if e is not None else ""
+
+
+def _itertuples_pos(st, n, k):
+    return isinstance(st, ast.For) and isinstance(st.iter, ast.Call) and call_name(st.iter) == "itertuples" and isinstance(st.target, ast.Tuple) and \
+        k < len(st.target.elts) and isinstance(st.target.elts[k], ast.Name) and st.target.elts[k].id == n
+
+
+# roles of the locals the rules below talk about (sa/normal.py: with_roles).  In group() the k-th unpacked name of
+# `for … in self.df.itertuples()` carries the row label (k = 0) and the (k-1)-th frame column, whatever it is called.
+C20_ROLES = {
+    "group": (
+        ("is_grouped", lambda n, v, st: isinstance(v, ast.Call) and call_name(v) == "zeros" and "bool" in _u(v)),
+        ("ar", lambda n, v, st: isinstance(v, ast.Call) and call_name(v) == "to_records"),
+        ("ix", lambda n, v, st: _itertuples_pos(st, n, 0)),
+        ("col", lambda n, v, st: _itertuples_pos(st, n, 1)),
+        ("offset", lambda n, v, st: _itertuples_pos(st, n, 2)),
+        ("ar_ungrouped", lambda n, v, st: isinstance(v, ast.Subscript) and _u(v.value) == "ar" and "is_grouped" in _u(v.slice)),
+        ("mask", lambda n, v, st: isinstance(v, ast.Call) and call_name(v) == "v_mask"),
+        ("df_groups", lambda n, v, st, node: isinstance(v, ast.List) and not v.elts and any(isinstance(x, ast.Return) and _u(x.value) == n for x in ast.walk(node))),
+    ),
+    "v_mask": (
+        ("offsets", lambda n, v, st: isinstance(v, ast.Subscript) and C.const_str(v.slice) == "offset"),
+        ("cols", lambda n, v, st: isinstance(v, ast.Call) and call_name(v) == "tolist" and "column" in _u(v)),
+        ("mask", lambda n, v, st: isinstance(v, ast.Call) and call_name(v) == "zeros"),
+        ("start", lambda n, v, st: isinstance(v, ast.Call) and call_name(v) == "bisect_left"),
+        ("end", lambda n, v, st: isinstance(v, ast.Call) and call_name(v) == "bisect_right"),
+        ("cols_", lambda n, v, st: isinstance(v, ast.Subscript) and _u(v.value) == "cols" and isinstance(v.slice, ast.Slice)),
+    ),
+    "combinations": (
+        ("combos", lambda n, v, st: isinstance(v, ast.Call) and call_name(v) == "reshape" and "meshgrid" in _u(v)),
+    ),
+    "create": (
+        ("minimum", lambda n, v, st: isinstance(v, ast.Call) and call_name(v) == "min" and isinstance(st, ast.Assign)),
+        ("maximum", lambda n, v, st: isinstance(v, ast.Call) and call_name(v) == "max" and isinstance(st, ast.Assign)),
+        ("freedom", lambda n, v, st: isinstance(v, ast.BinOp) and "keys" in _u(v) and "maximum" in _u(v) and "minimum" in _u(v)),
+        ("freedom_delta", lambda n, v, st: isinstance(v, ast.BinOp) and "arange" in _u(v) and "freedom" in _u(v)),
+    ),
+    "from_note_lists": (
+        ("types", lambda n, v, st, node: isinstance(v, ast.List) and not v.elts and any(
+            isinstance(x, ast.keyword) and x.arg == "types" and _u(x.value) == n for x in ast.walk(node))),
+    ),
+}
+
+
+def _rfn(ctx, q: str, **kw):
+    from ..normal import with_roles
+    return with_roles(ctx.M.nfn(q, **kw), C20_ROLES.get(q.rsplit(".", 1)[1], ()))
+
+
+
 def rule_r1(ctx) -> List[R.Inst]:
     M = ctx.M
     rid = "C20.R1"
@@ -76,7 +128,7 @@ def rule_r1(ctx) -> List[R.Inst]:
         insts.append(R.undec(rid, "df-assignments", file, cls.node.lineno, "no assignment to Pattern.df found"))
     # positional unpack of itertuples in group(): (label, column, offset, ...) = (index,) + frame columns
     cols, node = _frame_columns(ctx)
-    g = M.fn(PATTERN + ".group")
+    g = _rfn(ctx, PATTERN + ".group")
     loops = [n for n in walk_no_nested(g.node) if isinstance(n, ast.For) and isinstance(n.iter, ast.Call) and
              call_name(n.iter) == "itertuples"]
     if len(loops) != 1 or not isinstance(loops[0].target, ast.Tuple):
@@ -85,9 +137,18 @@ def rule_r1(ctx) -> List[R.Inst]:
         names = [t.id if isinstance(t, ast.Name) else "*" for t in loops[0].target.elts]
         idx = not any(k.arg == "index" and unparse(k.value) == "False" for k in loops[0].iter.keywords)
         want = (["<label>"] if idx else []) + cols
-        sem = {"col": "column", "column": "column", "offset": "offset"}
-        got = [("<label>" if i == 0 and idx else sem.get(nm, nm)) for i, nm in enumerate(names)]
-        ok_ = all(g_ == w for g_, w in zip(got, want) if g_ != "*")
+        # what each unpacked variable is USED as: the reference offset of v_mask, the reference column of h_mask, the position into
+        # the grouped flags — it must sit at the position of that column in the rows
+        used_as = {}
+        for x in ast.walk(loops[0]):
+            if isinstance(x, ast.Call) and call_name(x) == "v_mask" and len(x.args) >= 2 and isinstance(x.args[1], ast.Name):
+                used_as[x.args[1].id] = "offset"
+            if isinstance(x, ast.Call) and call_name(x) == "h_mask" and len(x.args) >= 2 and isinstance(x.args[1], ast.Name):
+                used_as[x.args[1].id] = "column"
+            if isinstance(x, ast.If) and isinstance(x.test, ast.Subscript) and isinstance(x.test.slice, ast.Name):
+                used_as[x.test.slice.id] = "<label>"
+        got = [used_as.get(nm, "*") for nm in names]
+        ok_ = all(g_ == w for g_, w in zip(got, want) if g_ != "*") and len([g_ for g_ in got if g_ != "*"]) >= 2
         insts.append(R.ok(rid, "row-unpack", file, loops[0].lineno, idiom=f"{names} <- {want}") if ok_ else
                      R.viol(rid, "row-unpack", file, loops[0].lineno,
                             f"rows are unpacked positionally as {names} but the frame yields {want}", construct=f"{names} vs {want}"))
@@ -111,7 +172,7 @@ def rule_r1(ctx) -> List[R.Inst]:
 def rule_r2(ctx) -> List[R.Inst]:
     M = ctx.M
     rid = "C20.R2"
-    g = M.fn(PATTERN + ".group")
+    g = _rfn(ctx, PATTERN + ".group")
     file = M.mods[g.mod].rel
     loops = [n for n in walk_no_nested(g.node) if isinstance(n, ast.For) and isinstance(n.iter, ast.Call) and
              call_name(n.iter) == "itertuples"]
@@ -182,7 +243,7 @@ def rule_r2(ctx) -> List[R.Inst]:
     else:
         insts.append(R.undec(rid, "h-window-guard", file, lp.lineno, "guarded application of h_mask not found"))
     # (c) window masks: [offset, offset + v_window] on offsets, |column - col| <= h_window; first occurrence per column for jacks
-    vm = M.fn(PATTERN + ".v_mask")
+    vm = _rfn(ctx, PATTERN + ".v_mask")
     st = local_defs(vm.node, "start")
     en = local_defs(vm.node, "end")
     ok_v = len(st) == 1 and len(en) == 1 and unparse(st[0]) == "bisect_left(offsets, offset)" and \
@@ -203,7 +264,8 @@ def rule_r2(ctx) -> List[R.Inst]:
                  R.viol(rid, "h-window", file, hm.node.lineno, "the horizontal window is |column - reference column| <= h_window",
                         construct=unparse(cmpn[0]) if cmpn else ""))
     jk = [n for n in walk_no_nested(vm.node) if isinstance(n, ast.ListComp) and "index" in unparse(n)]
-    ok_j = len(jk) == 1 and unparse(jk[0]).replace(" ", "") == "[cols_.index(i)foriinset(cols_)]"
+    ok_j = len(jk) == 1 and len(jk[0].generators) == 1 and isinstance(jk[0].generators[0].target, ast.Name) and not jk[0].generators[0].ifs and \
+        unparse(jk[0].generators[0].iter) == "set(cols_)" and unparse(jk[0].elt) == f"cols_.index({jk[0].generators[0].target.id})"
     insts.append(R.ok(rid, "no-jack", file, (jk[0] if jk else vm.node).lineno, idiom="one (the first) occurrence per distinct column of the window") if ok_j else
                  R.viol(rid, "no-jack", file, (jk[0] if jk else vm.node).lineno,
                         "with jacks avoided exactly one note (the earliest) per distinct column of the window is selected",
@@ -214,7 +276,7 @@ def rule_r2(ctx) -> List[R.Inst]:
 def rule_r3(ctx) -> List[R.Inst]:
     M = ctx.M
     rid = "C20.R3"
-    fn = M.nfn(COMBO + ".combinations")
+    fn = _rfn(ctx, COMBO + ".combinations")
     file = M.mods[fn.mod].rel
     insts = []
     size = params_of(fn.node)[1]
@@ -388,7 +450,7 @@ def rule_r5(ctx) -> List[R.Inst]:
     """REPEAT: the shift range of each base combo is computed from that combo alone"""
     M = ctx.M
     rid = "C20.R5"
-    fn = M.fn(FILTERS + ".PtnFilterCombo.create")
+    fn = _rfn(ctx, FILTERS + ".PtnFilterCombo.create")
     file = M.mods[fn.mod].rel
     loops = [n for n in ast.walk(fn.node) if isinstance(n, ast.For) and "ar_combos" in unparse(n.iter)]
     if len(loops) != 1:
@@ -441,7 +503,7 @@ def rule_r6(ctx) -> List[R.Inst]:
     M = ctx.M
     rid = "C20.R6"
     insts = []
-    fn = M.fn(PATTERN + ".from_note_lists")
+    fn = _rfn(ctx, PATTERN + ".from_note_lists")
     file = M.mods[fn.mod].rel
     # how the type filter compares
     flt = M.fn(FILTERS + ".PtnFilterType.filter")
